@@ -84,6 +84,12 @@ Kind(e) == CASE e.a = "Cmd" -> <<"C", e.v, e.arg>>
                                  IF e.op = "bodyNA" THEN \A r \in DOMAIN e.st : e.st[r] = "ok" ELSE e.res = "ok">>
              [] OTHER       -> IF e.v \in {"DATA", "BDAT"} THEN <<"R", e.v, e.cls>> ELSE <<"R">>
 GenView == <<cfg, m, nf, ncmd, obs, {Kind(hist[i]) : i \in 1..Len(hist)}>>
+\* finer, for the focused corners: commands are distinguished by the transaction they belong to
+\* (number of RSET / DATA / EHLO before them), so "spelling A in one transaction, spelling B in a later
+\* one" is a class of its own
+TxOf(i) == Cardinality({j \in 1..(i - 1) : hist[j].a = "Cmd" /\ hist[j].v \in {"RSET", "DATA", "HELO"}})
+KindTx(i) == IF hist[i].a = "Cmd" THEN <<"C", hist[i].v, hist[i].arg, hist[i].r, TxOf(i)>> ELSE Kind(hist[i])
+GenViewTx == <<cfg, m, nf, ncmd, obs, {KindTx(i) : i \in 1..Len(hist)}>>
 \* coarser: one behaviour per distinct final state
 GenViewPlain == <<cfg, m, nf, ncmd, obs>>
 
